@@ -42,7 +42,47 @@ C07(r) ==
                            PctOK(rk.pctg, OverlapTime(Streamed(rk)), CommTime(Streamed(rk)))),
     range        |-> All(r, LAMBDA rk : CommTime(Streamed(rk)) > 0 => (rk.pctg >= 0 /\ rk.pctg <= 10000)) ]
 
+\* C05
+TypeIdxOf(types, c) == CHOOSE k \in DOMAIN types : types[k] = c
+RankRows(r, rank) == Streamed(CHOOSE rk \in Ranks(r) : rk.rank = rank)
+KernelsOf(r, rank, type) == OfClass(RankRows(r, rank), type)
+TypeReported(r, name) == LET js == { j \in DOMAIN r.types : r.types[j].name = name }
+                         IN SumSet(js, [j \in js |-> r.types[j].sum])
+ExactlyAllRanks(r, types, m) == LET RS == Ranks(r) IN SumSet(RS, [rk \in RS |-> Exactly(Streamed(rk), types, m)])
+ValidMasks(types) == { m \in 1..7 : MaskSet(m) \subseteq DOMAIN types }
+KRows(r, rank, type) == { j \in DOMAIN r.kernels : r.kernels[j].rank = rank /\ r.kernels[j].type = type }
+DurSum(S) == SumSet(S, [e \in S |-> e.dur])
+Named(r, rank, type) == { j \in KRows(r, rank, type) : r.kernels[j].name # "others" }
+WithName(r, rank, type, n) == { e \in KernelsOf(r, rank, type) : e.name = n }
+C05(r) ==
+  IF r.err # "" THEN [no_exception |-> FALSE] ELSE
+  LET types == TypeOrder(r.incMem)
+      total == SumSet(DOMAIN r.types, [j \in DOMAIN r.types |-> r.types[j].sum])
+      RT == { <<rk.rank, types[k]>> : rk \in Ranks(r), k \in DOMAIN types }
+  IN
+  [ no_exception  |-> TRUE,
+    in_domain     |-> All(r, LAMBDA rk : Streamed(rk) # {}),
+    type_times    |-> \A m \in ValidMasks(types) : TypeReported(r, RowName(types, m)) = ExactlyAllRanks(r, types, m),
+    type_only     |-> \A j \in DOMAIN r.types : r.types[j].sum = 0 \/ \E m \in ValidMasks(types) : r.types[j].name = RowName(types, m),
+    type_total    |-> LET RS == Ranks(r) IN total = SumSet(RS, [rk \in RS |-> Cardinality(AnalysedCells(Streamed(rk), types))]),
+    type_pct      |-> total > 0 => /\ \A j \in DOMAIN r.types : 2 * Abs(r.types[j].pct * total - 1000 * r.types[j].sum) <= total + 2
+                                   /\ Abs(SumSet(DOMAIN r.types, [j \in DOMAIN r.types |-> r.types[j].pct]) - 1000) <= Len(r.types),
+    kernel_sums   |-> \A rt \in RT : LET js == KRows(r, rt[1], rt[2]) IN
+                         SumSet(js, [j \in js |-> r.kernels[j].sum]) = DurSum(KernelsOf(r, rt[1], rt[2])),
+    kernel_named_bound |-> \A rt \in RT : Cardinality(Named(r, rt[1], rt[2])) <= r.numK,
+    kernel_named_once  |-> \A rt \in RT : \A a, b \in Named(r, rt[1], rt[2]) : r.kernels[a].name = r.kernels[b].name => a = b,
+    kernel_named_stats |-> \A rt \in RT : \A j \in Named(r, rt[1], rt[2]) :
+                         LET K == WithName(r, rt[1], rt[2], r.kernels[j].name)
+                             row == r.kernels[j]
+                         IN /\ K # {}
+                            /\ row.sum = DurSum(K)
+                            /\ row.max = SetMax({ e.dur : e \in K })
+                            /\ row.min = SetMin({ e.dur : e \in K })
+                            /\ Abs(row.mean1000 * Cardinality(K) - 1000 * DurSum(K)) <= Cardinality(K),
+    kernel_only   |-> \A j \in DOMAIN r.kernels : <<r.kernels[j].rank, r.kernels[j].type>> \in RT ]
+
 Clauses(r) == CASE r.prop = "C04" -> C04(r)
+                [] r.prop = "C05" -> C05(r)
                 [] r.prop = "C07" -> C07(r)
 
 Verdict(r) == LET c == Clauses(r) IN { k \in DOMAIN c : ~c[k] }
